@@ -2,6 +2,7 @@ package gateway
 
 import (
 	"bytes"
+	"time"
 
 	mqPkts "github.com/eclipse/paho.mqtt.golang/packets"
 
@@ -105,4 +106,28 @@ func VH_C11_cycle(k1, k2, second int) {
 		vReach("C11.second_cycle")
 		vAssert(len(x.sn.out) == 0, "C11.asleep_again_after_pingresp")
 	}
+}
+
+// VH_C11_timed(kind): the same cycle in virtual time: the client sleeps for a
+// symbolic while (up to 3.5 s; RetryDelay 1 s, RetryCount 2) after one broker
+// PUBLISH (kind 1: QoS 1, kind 3: QoS 2) arrived. The gateway's retry timers
+// run meanwhile. On wake-up the client must get the PUBLISH once.
+func VH_C11_timed(kind int) {
+	x := vC11Handler()
+	d := snPkts1.NewDisconnect(60)
+	vAssume(x.feedSN(d) == nil)
+	x.sn.take()
+	e := vC11Pick(kind)
+	x.feedMQ(e.packet())
+	w := vNondetDelay("asleep_for")
+	vAssume(vAnd(w > 0, w < int64(3500*time.Millisecond)))
+	vLabel("slept_past_retry", vB2U(w >= int64(time.Second)))
+	vSleepUntil(vNow() + w)
+	vAssert(len(x.sn.out) == 0, "C11.nothing_sent_while_asleep")
+	vAssume(x.feedSN(snPkts1.NewPingreq([]byte("c"))) == nil)
+	got := x.sn.take()
+	vReach("C11.woke_up_later")
+	vAssert(vCountSN(got, vtPUBLISH) == 1, "C11.timed_delivered_once")
+	last := vParseSN(got[len(got)-1])
+	vAssert(vAnd(last.OK, last.Typ == vtPINGRESP), "C11.followed_by_pingresp")
 }
